@@ -170,6 +170,23 @@ func newTaintCtx(c *Ctx, f *core.Func, paramTaint map[types.Object]string) *tain
 		ast.Inspect(f.Body, func(n ast.Node) bool {
 			switch x := n.(type) {
 			case *ast.AssignStmt:
+				// a local function value whose result is file-derived: its calls are file-derived
+				for i, r := range x.Rhs {
+					if lit, isLit := ast.Unparen(r).(*ast.FuncLit); isLit && i < len(x.Lhs) && len(x.Lhs) == len(x.Rhs) {
+						if id, ok := x.Lhs[i].(*ast.Ident); ok {
+							core.InspectShallow(lit.Body, func(m ast.Node) bool {
+								if ret, isRet := m.(*ast.ReturnStmt); isRet {
+									for _, res := range ret.Results {
+										if t, why := tc.taintOf(res); t {
+											mark(id, why)
+										}
+									}
+								}
+								return true
+							})
+						}
+					}
+				}
 				if len(x.Rhs) == 1 && len(x.Lhs) >= 1 {
 					if t, why := tc.taintOf(x.Rhs[0]); t {
 						// multi-value call: only the non-error, integer-ish results
@@ -392,10 +409,110 @@ func (tc *taintCtx) madeWithLen(s ast.Expr, boundExpr string) bool {
 					check(l, x.Rhs[i])
 				}
 			}
+			// s, … := recv.F(…) where F allocates its i-th (named) result exactly once with
+			// make(T, LEN) and LEN, read with F's receiver replaced by recv, is the bound
+			if len(x.Rhs) == 1 && len(x.Lhs) >= 1 {
+				if call, isC := ast.Unparen(x.Rhs[0]).(*ast.CallExpr); isC {
+					for i, l := range x.Lhs {
+						if core.ExprString(l) == target && tc.calleeMakesResult(call, i, boundExpr) {
+							ok = true
+						}
+					}
+				}
+			}
 		}
 		return true
 	})
 	return ok
+}
+
+// calleeMakesResult: the callee of call is a method of package fs/ggml whose idx-th result is a
+// named result assigned exactly once in its body, by make(T, LEN); LEN with the method's receiver
+// name replaced by the call's receiver expression equals boundExpr (conversions stripped).
+func (tc *taintCtx) calleeMakesResult(call *ast.CallExpr, idx int, boundExpr string) bool {
+	fo, _ := core.Callee(tc.info, call).(*types.Func)
+	sel, isSel := ast.Unparen(call.Fun).(*ast.SelectorExpr)
+	if fo == nil || !isSel {
+		return false
+	}
+	var callee *core.Func
+	for _, f := range tc.c.P.FuncsOf(ggmlPkg) {
+		if f.Obj != nil && f.Obj.FullName() == fo.FullName() {
+			callee = f
+		}
+	}
+	if callee == nil || callee.Decl.Recv == nil || len(callee.Decl.Recv.List) != 1 || len(callee.Decl.Recv.List[0].Names) != 1 || callee.Type.Results == nil {
+		return false
+	}
+	recvName := callee.Decl.Recv.List[0].Names[0].Name
+	var res *ast.Ident
+	i := 0
+	for _, fl := range callee.Type.Results.List {
+		for _, nm := range fl.Names {
+			if i == idx {
+				res = nm
+			}
+			i++
+		}
+	}
+	if res == nil {
+		return false
+	}
+	cinfo := callee.Info()
+	robj := cinfo.Defs[res]
+	nAssign, good := 0, false
+	ast.Inspect(callee.Body, func(n ast.Node) bool {
+		as, isA := n.(*ast.AssignStmt)
+		if !isA {
+			return true
+		}
+		for j, l := range as.Lhs {
+			id, isId := l.(*ast.Ident)
+			if !isId || cinfo.Uses[id] != robj {
+				continue
+			}
+			nAssign++
+			if len(as.Lhs) == len(as.Rhs) {
+				if mk, isC := ast.Unparen(as.Rhs[j]).(*ast.CallExpr); isC && core.CalleeName(cinfo, mk) == "builtin.make" && len(mk.Args) == 2 {
+					ln := core.ExprString(stripConv(cinfo, mk.Args[1]))
+					// the receiver's name at the head of the length expression
+					if strings.HasPrefix(ln, recvName+".") {
+						ln = core.ExprString(sel.X) + strings.TrimPrefix(ln, recvName)
+					}
+					be := boundExpr
+					for strings.HasPrefix(be, "int(") && strings.HasSuffix(be, ")") {
+						be = strings.TrimSuffix(strings.TrimPrefix(be, "int("), ")")
+					}
+					if ln == be {
+						good = true
+					}
+				}
+			}
+		}
+		return true
+	})
+	// the receiver must not be rebound in the callee, and append would change the length
+	grows := false
+	ast.Inspect(callee.Body, func(n ast.Node) bool {
+		if c2, isC := n.(*ast.CallExpr); isC && core.CalleeName(cinfo, c2) == "builtin.append" && len(c2.Args) > 0 {
+			if id, isId := ast.Unparen(c2.Args[0]).(*ast.Ident); isId && cinfo.Uses[id] == robj {
+				grows = true
+			}
+		}
+		return true
+	})
+	// every return hands back that variable (bare return, or the variable itself at idx)
+	retOK := true
+	core.InspectShallow(callee.Body, func(n ast.Node) bool {
+		if r, isR := n.(*ast.ReturnStmt); isR && len(r.Results) > 0 {
+			id, isId := ast.Unparen(r.Results[min(idx, len(r.Results)-1)]).(*ast.Ident)
+			if len(r.Results) <= idx || !isId || cinfo.Uses[id] != robj {
+				retOK = false
+			}
+		}
+		return true
+	})
+	return nAssign == 1 && good && !grows && retOK
 }
 
 func stripConvStr(s string, info *types.Info, tc *taintCtx) ast.Expr { return &ast.Ident{Name: s} }
